@@ -675,6 +675,12 @@ func LoadTolerant[C any](maxLate time.Duration, prop func(C, *Obs) error) func(C
 			// A failure whose text shows a client-side timeout (errno 110, gRPC 504, "timeout") must repeat on every
 			// attempt: code that really loses a well-behaved answer loses it every time, a starved client does not.
 			// Any other failure is final as soon as one attempt ran undisturbed.
+			// a machine that is oversubscribed several times over (1-minute load average above 4 runnable tasks per
+			// core) starves goroutines for hundreds of milliseconds although timers still fire on time: such an
+			// attempt counts as disturbed as well
+			if overloaded() && late <= maxLate {
+				late = maxLate + 1
+			}
 			if late <= maxLate && !timeoutSymptom.MatchString(err.Error()) {
 				*o = *o2
 				return err
@@ -689,6 +695,20 @@ func LoadTolerant[C any](maxLate time.Duration, prop func(C, *Obs) error) func(C
 		o.Note("inconclusive", err.Error())
 		return nil
 	}
+}
+
+// overloaded reports whether the 1-minute load average exceeds 4 per core (Linux; false where it cannot be read).
+func overloaded() bool {
+	b, err := os.ReadFile("/proc/loadavg")
+	if err != nil {
+		return false
+	}
+	f := strings.Fields(string(b))
+	if len(f) == 0 {
+		return false
+	}
+	v, err := strconv.ParseFloat(f[0], 64)
+	return err == nil && v > 4*float64(runtime.NumCPU())
 }
 
 var timeoutSymptom = regexp.MustCompile(`net=110\b|\b504\b|(?i)time[d ]?out|deadline exceeded`)
